@@ -598,6 +598,8 @@ func lifeBlocksOf(s lifeStep) int {
 	switch {
 	case s.N == "Penalty":
 		return 2
+	case s.N == "Ceremony":
+		return 4
 	case s.N == "ActivateOther" && s.Block:
 		return 2 // the refund
 	}
@@ -697,6 +699,24 @@ func (h *hist) lifeRun(p lifePath) {
 			if h.ref.n.App.State.ValidationPeriod() != before+1 {
 				h.lifeSkip(idx, s, fmt.Sprintf("period %v after %v", h.ref.n.App.State.ValidationPeriod(), before))
 				return
+			}
+		case "Ceremony":
+			// the four period blocks in a row
+			for k := 0; k < 4; k++ {
+				if k == 3 {
+					mark("final")
+				} else {
+					mark("period")
+				}
+				before := h.ref.n.App.State.ValidationPeriod()
+				l.fixedDelay = h.lifePeriodDelay()
+				if !h.lifeBlock() {
+					return
+				}
+				if h.ref.n.App.State.ValidationPeriod() != before+1 {
+					h.lifeSkip(idx, s, fmt.Sprintf("period %v after %v", h.ref.n.App.State.ValidationPeriod(), before))
+					return
+				}
 			}
 		case "EpochEnd":
 			l.epoch = h.lifeEpochFn(s)
